@@ -620,6 +620,13 @@ class Normaliser:
                 cb0 = sc.match[ob0]
                 j = None
                 i2 = cb0 - 1
+                # a body without a tail expression (ends in `;` or in a block statement): the very end of the body
+                k2 = cb0 - 1
+                while k2 > ob0 and body[k2].isspace():
+                    k2 -= 1
+                if sc.code[k2] and body[k2] in ';}':
+                    j = k2 + 1
+                    i2 = ob0
                 while i2 > ob0:
                     if sc.code[i2]:
                         ch = body[i2]
